@@ -133,6 +133,10 @@ fn main() {
     let state_file  = arg(&args, "--state").map(|s| s.to_string());
     let script: Vec<String> = arg(&args, "--script").map(|s| s.split(',').filter(|s| !s.is_empty()).map(|s| s.to_string()).collect()).unwrap_or_else(|| vec![]);
     let quiet       = args.iter().any(|a| a == "--quiet");
+    let scripts: Vec<Vec<String>> = arg(&args, "--scripts-file").map(|f| {
+        let v: Value = serde_json::from_str(&std::fs::read_to_string(f).expect("read scripts")).expect("parse scripts");
+        v.as_array().map(|a| a.iter().map(|s| s.as_array().unwrap().iter().map(|t| t.as_str().unwrap().to_string()).collect()).collect()).unwrap_or_else(|| vec![])
+    }).unwrap_or_else(|| vec![]);
 
     // Silence panic messages of scenario panics (they are data)
     if quiet { std::panic::set_hook(Box::new(|_| { runtime::note_panic(); })); }
@@ -182,6 +186,10 @@ fn main() {
                 Box::new(PctDriver { rng, prio: std::collections::HashMap::new(), change, low: 0 })
             }
             "script" => Box::new(ScriptDriver { script: script.clone(), diverged: diverged.clone(), fallback: None }),
+            "scripts" => {
+                if next_run as usize >= scripts.len() { break; }
+                Box::new(ScriptDriver { script: scripts[next_run as usize].clone(), diverged: diverged.clone(), fallback: None })
+            }
             "script-random" => Box::new(ScriptDriver { script: script.clone(), diverged: diverged.clone(), fallback: Some(Rng::new(run_seed)) }),
             "dfs"    => {
                 let prefix = if !dfs.started { dfs.started = true; dfs.free_prefix = script.len(); script.clone() } else {
